@@ -433,6 +433,22 @@ def check_case(case) -> Obs:
                 want = np.array([[fl[(r * cols + c) % len(fl)] for c in range(cols)] for r in range(real_rows)]) if len(fl) == real_rows * cols else None
             if want is not None and want.shape == vols.shape and not np.array_equal(want, vols):
                 obs.bad("C20/layout", f"{desc}: volumes {vols.tolist()[:3]} are not laid out as given {want.tolist()[:3]}")
+        if isinstance(case["init"].get("v"), list) and case["init"]["t"] in ("2d", "percol-array") and expect != "reject":
+            # build once more from an array object that is changed afterwards
+            arr = np.array([[_v(x) for x in row] for row in case["init"]["v"]], dtype=float) if case["init"]["t"] == "2d" else np.array([_v(x) for x in case["init"]["v"]], dtype=float)
+            import robotools
+
+            try:
+                if ctor == "Trough":
+                    lw2 = robotools.Trough("Lab2", case["vrows"], cols, min_volume=_v(case["min"]), max_volume=_v(case["max"]), initial_volumes=arr)
+                else:
+                    lw2 = robotools.Labware("Lab2", case["rows"], cols, min_volume=_v(case["min"]), max_volume=_v(case["max"]), initial_volumes=arr, **({"virtual_rows": case["vrows"]} if ctor == "LabwareV" else {}))
+                v0 = lw2.volumes
+                arr += 1.0
+                if not np.array_equal(lw2.volumes, v0) or not np.array_equal(lw2.history[0][1], v0):
+                    obs.bad("C20/aliases-caller-array", f"{desc}: changing the array passed as initial_volumes changed the labware's volumes/history")
+            except ValueError:
+                pass
         h = lw.history
         if len(h) != 1 or h[0][0] != "initial" or not np.array_equal(h[0][1], vols, equal_nan=True):
             obs.bad("C20/history", f"{desc}: history is {[(a, b.tolist()) for a, b in h][:2]}")
